@@ -401,7 +401,7 @@ func checkFault(ctx context.Context, s *sut.SUT, st *c09State, op c09Op, k int, 
 	}
 	pre := dumpC09(s, op.Pull)
 	w := watchWakes(st)
-	fm := map[string]sut.FaultMode{"error": sut.FaultError, "cancel": sut.FaultCancel, "deadlock-once": sut.FaultDeadlockOnce}[mode]
+	fm := map[string]sut.FaultMode{"error": sut.FaultError, "cancel": sut.FaultCancel, "cancel-after": sut.FaultCancelAfter, "deadlock-once": sut.FaultDeadlockOnce}[mode]
 	sut.TheGate.Arm(fm, k)
 	err := runGuarded(ctx, s, st, op)
 	_, fired, ev = sut.TheGate.Disarm()
@@ -422,6 +422,21 @@ func checkFault(ctx context.Context, s *sut.SUT, st *c09State, op c09Op, k int, 
 			return "retry-differs", fmt.Sprintf("%s: after the handler's own retry the stored state differs from a fault-free run:\n%s", where, diffLines(dOK, full)), ev, true
 		}
 		return "", "", ev, true
+	case "cancel-after":
+		// the statement before the cancellation completed; whether the operation
+		// as a whole did is the implementation's call, but it is all or nothing
+		// and the report must agree with it
+		full := dumpC09(s, false)
+		if after != pre && full != dOK {
+			return "half-applied", fmt.Sprintf("%s: state is neither the old nor the new one:\n%s", where, diffLines(pre, after)), ev, true
+		}
+		if after == pre && err == nil && pre != dumpOKFor(op, dOK, s) {
+			return "lost-but-ok", fmt.Sprintf("%s: reported success but nothing was stored", where), ev, true
+		}
+		if err == nil || after != pre {
+			return "", "", ev, true
+		}
+		// failed and unchanged: the common checks (no wake-up, retry) follow
 	case "cancel":
 		if ev.Kind == "commit" {
 			full := dumpC09(s, false)
@@ -623,7 +638,7 @@ func enumerateC09(ctx context.Context, s *sut.SUT, p c09Params, sd int64, onFail
 		}
 		dOK := dumpC09(s, false)
 		stats.C.Class("events/"+op.Name, len(events))
-		modes := []string{"error", "cancel"}
+		modes := []string{"error", "cancel", "cancel-after"}
 		if op.Retries {
 			modes = append(modes, "deadlock-once")
 		}
@@ -691,7 +706,7 @@ func TestC09(t *testing.T) {
 		names[i] = o.Name
 	}
 	sort.Strings(names)
-	stats.C.Note("for every generated state, every event index k (BEGIN, each statement, COMMIT) of each of these %d operations was faulted in modes error and cancel (and deadlock-once for the retry-wrapped handlers): %s", len(ops), strings.Join(names, ", "))
+	stats.C.Note("for every generated state, every event index k (BEGIN, each statement, COMMIT) of each of these %d operations was faulted in modes error, cancel (before the event) and cancel-after (right after a statement completed, so that the next statement or the COMMIT meets a transaction database/sql has already rolled back) (and deadlock-once for the retry-wrapped handlers): %s", len(ops), strings.Join(names, ", "))
 }
 
 func init() {
